@@ -1088,7 +1088,8 @@ def _same_code(a, b):
         if isinstance(x, types.CodeType) and isinstance(y, types.CodeType):
             if not _same_code(x, y):
                 return False
-        elif type(x) is not type(y) or x != y:
+        elif type(x) is not type(y) or x != y or repr(x) != repr(y):
+            # (0.0 == -0.0, but they are not the same constant)
             return False
     return True
 
